@@ -91,6 +91,14 @@ def cases(tier, seed):
                     for lab in explore_set:
                         out.append(dict(trainer=trainer, n=n, part=[kind, part], labels=lab, mode=mode,
                                         devs=1 if tier == "quick" else 2, iters=2, seed=seed))
+        # histories: the machine has been used before it is trained from the bag (a stale cache would only show now)
+        for trainer in ("isv", "jfa"):
+            for pre in ("fit_list", "enroll", "enroll_fit_list"):
+                for kind, part in [("delayed", [n]), ("delayed", [1, n - 1]), ("sequence", n)]:
+                    for mode in ("shared", "serialised"):
+                        for lab in explore_set[:2]:
+                            out.append(dict(trainer=trainer, n=n, part=[kind, part], labels=lab, mode=mode, devs=0 if tier == "quick" else 1,
+                                            iters=2, pre=pre, seed=seed))
         for kind, part in _partitionings(n, tier):
             for mode in ("shared", "serialised"):
                 for upd in (True, False):
@@ -143,10 +151,17 @@ def _fit(case, ubm, stats, bag):
     y = np.array(case["labels"])
     if tr == "isv":
         m = ISVMachine(r_U=2, em_iterations=case["iters"], ubm=ubm, random_state=0, relevance_factor=4.0)
-        m.fit(X, y)
-        return dict(U=np.array(m.U), D=np.array(m.D))
-    m = JFAMachine(r_U=2, r_V=1, em_iterations=case["iters"], ubm=ubm, random_state=0, relevance_factor=4.0)
+    else:
+        m = JFAMachine(r_U=2, r_V=1, em_iterations=case["iters"], ubm=ubm, random_state=0, relevance_factor=4.0)
+    pre = case.get("pre") or ""
+    if "enroll" in pre:
+        m.enroll(copy.deepcopy(stats[:2]))
+    if "fit_list" in pre:
+        with dask.config.set(scheduler="sync"):
+            m.fit(copy.deepcopy(stats), y)
     m.fit(X, y)
+    if tr == "isv":
+        return dict(U=np.array(m.U), D=np.array(m.D))
     return dict(U=np.array(m.U), V=np.array(m.V), D=np.array(m.D))
 
 
@@ -198,5 +213,5 @@ def run_case(case):
     c.count("schedules", nsched)
     c.count("distinct_outcomes_gt1", 1 if len(outcomes) > 1 else 0)
     npart = case["part"][1] if case["part"][0] == "sequence" else len(case["part"][1])
-    sig = "%s|%s|%s|%s|%s|%s" % (case["trainer"], case["n"], case["part"], case["labels"], case["mode"], case.get("upd"))
+    sig = "%s|%s|%s|%s|%s|%s|%s" % (case["trainer"], case["n"], case["part"], case["labels"], case["mode"], case.get("upd"), case.get("pre"))
     return c.result(nontrivial=(npart >= 2 or nsched >= 2), sig=sig)
